@@ -685,6 +685,26 @@ def u5(prog: Program, chk: Check) -> None:
                      f"parameters (and with them the returned time grid) depend on the origin"), c)
 
 
+def u6(prog: Program, chk: Check) -> None:
+    chk.rule("U6", "the time origin has no special value: no parameter with a time role is tested for truthiness (`if start_time:` singles out the origin t = 0, so a problem shifted to start at zero takes another branch than the same problem started elsewhere)", floor=1)
+    from rules.c02 import numeric_option_tests
+    n = 0
+    for (u, node, pname) in numeric_option_tests(prog):
+        r = roles.role_of(ast.Name(id=pname, ctx=ast.Load()))
+        if r not in ("START", "END", "DT", "STEP", "NUM_STEPS", "TIME"):
+            continue
+        n += 1
+        chk.saw(u)
+        chk.add("U6", u, f"truthiness test of `{pname}` ({r}): {norm(node)[:60]}", False,
+                f"`{pname}` is a time / step quantity: the value 0 takes the 'not given' branch", node)
+    timed = sum(1 for u in prog.units.values() if not isinstance(u.node, ast.Lambda)
+                for x in u.node.args.args
+                if roles.role_of(ast.Name(id=x.arg, ctx=ast.Load())) in ("START", "END", "DT"))
+    chk.add("U6", prog.module("tempo"), f"{timed} parameters with a time role in the package, "
+            f"{n} tested for truthiness", timed >= 30,
+            "" if timed >= 30 else "fewer time parameters than confirmed by hand")
+
+
 def run(prog: Program, chk: Check) -> None:
     chk.explanation = (
         "Decides every place where an absolute time is manufactured or consumed: if each such "
@@ -705,3 +725,4 @@ def run(prog: Program, chk: Check) -> None:
     chk.call(u2b, prog, chk)
     chk.call(u4, prog, chk)
     chk.call(u5, prog, chk)
+    chk.call(u6, prog, chk)
